@@ -454,11 +454,15 @@ C(f"{F}:Parser.concatenate_strings", params={"self": "obj:Parser#strings", "part
 
 # the f-string builder: one JoinedStr over exactly the parts matched, at the construct's positions; a p in the prefix is remembered TOGETHER with
 # the node it belongs to (concatenate_strings consumes it only for that node: C14)
-C(f"{F}:Parser._decode_fstring_parts", params={"self": "obj:Parser#strings", "parts": "abslist[obj:StrPart]"}, verify=False,
-  why_assumed="recursion over nested format specs and re.sub with a callback are outside the executor's subset; escape decoding of literal text is "
-              "covered by the C10 stand-in (escape-in-literal classes)",
-  ensures=[], raises=["SyntaxError"], may_raise=["SyntaxError"], raises_ensures=[WF], modifies=ERRMOD, properties=["C10"])
-C(f"{F}:Parser.handle_fstring", params={"self": "obj:Parser#strings", "a": "Tok", "b": "abslist[obj:StrPart]", **LOCS},
+FPARTS = "objseq[union[obj:ast.Constant#sv|obj:ast.FormattedValue#fs]]"
+C(f"{F}:Parser._decode_fstring_parts", params={"self": "obj:Parser#strings", "parts": FPARTS},
+  requires=TKW + ["parts_wf(parts)"],
+  # WHAT the text decodes to (re.sub with a callback, the completed backslash) is not modelled: `text` is opaque; the decoding itself is C10's stand-in
+  opaque=["text", "m"],
+  loops={0: {"inv": TKW}},
+  # an escape that does not decode is reported AT the part (C11), never with literal_eval's own coordinates; nothing else is raised
+  ensures=[*TKW], raises=["SyntaxError"], raises_ensures=[WF], modifies=ERRMOD, properties=["C10", "C11"])
+C(f"{F}:Parser.handle_fstring", params={"self": "obj:Parser#strings", "a": "Tok", "b": FPARTS, **LOCS}, requires=TKW + ["parts_wf(b)"],
   ensures=["isinstance(result, ast.JoinedStr) and result.values is b", f"all_located(result, {LOCARGS}, b)",
            "implies(has_p_prefix(a.string), not is_none(self._path_token) and self._path_token.string == strip_p(a.string) and self._path_token.start == a.start "
            "and self._path_token.end == a.end and self._path_owner is result)",
